@@ -32,6 +32,8 @@ class Ctx:
         self.obs = []
         self.analysed_fns = set()
         self.notes = []
+        from . import pattern as _P, inline as _I
+        _P.EXPANDER = lambda d, keep, facts=facts: _I.expand(facts, d, 0, keep)
 
     # ---------------------------------------------------------------- anchors
     def fn(self, name, where=None, rule='ANCHOR'):
@@ -93,7 +95,11 @@ class Ctx:
             if kind == 'assign':
                 out.append((Site(body, bb, pos, 'ret', payload), simplify(dag.rvalue(payload['rv'], bb, pos))))
             elif kind == 'call':
-                out.append((Site(body, bb, pos, 'ret', payload), simplify(dag.call_dag(payload, bb))))
+                d = simplify(dag.call_dag(payload, bb))
+                if d[0] == 'call' and d[1] == 'Result::ok' and len(d) == 3:
+                    # `x.ok()` as the returned value = `if let Ok(v) = x { Some(v) } else { None }`: present the Some exit
+                    d = ('agg', 'option::Option::Some', ('0', ('unwrap', d[2])))
+                out.append((Site(body, bb, pos, 'ret', payload), d))
             elif kind == 'mut':
                 out.append((Site(body, bb, pos, 'ret', payload.data), simplify(dag.local(0, bb, pos + 1))))
         return out
@@ -234,6 +240,74 @@ class Ctx:
         return self.alts(site.body, site.data['args'][k], site.bb, site.idx)
 
     # ---------------------------------------------------------------- closures
+    def locals_by_def(self, body, pat, env=None, whole=True):
+        """locals identified by ROLE, not by name: those with a (whole-local) definition whose value DAG matches pat"""
+        out = []
+        dag = body.dag()
+        for l, ds in body.defs().items():
+            if l == 0 or 1 <= l <= body.argc:
+                continue
+            for d in ds:
+                if d[2] == 'mut':
+                    continue
+                if d[2] == 'assign' and d[3]['pl']['p']:
+                    continue
+                try:
+                    v = simplify(dag.defdag(l, d))
+                except Exception:
+                    continue
+                if match(pat, v, env) is not None:
+                    out.append(l)
+                    break
+        # prefer user variables over compiler temporaries that merely copy them
+        named = [l for l in out if body.local_name(l)]
+        return named or out
+
+    def push_events(self, body, callee='Vec::push'):
+        """[(site, element DAG)] for every `callee` (Vec::push by default) performed by body - directly, or by a loop-free crate-local
+        helper that is handed `&mut` to the vector (the helper's element DAGs are re-expressed over the caller's arguments)"""
+        from . import inline as IN
+        out = []
+        for s_ in body.calls(callee):
+            out.append((s_, self.arg(s_, 1)))
+        for s_ in body.calls('*'):
+            name, raw = body.callee(s_.data)
+            f = self.facts.bodies.get(raw) if raw else None
+            if f is None or f.loops() or f is body:
+                continue
+            mutp = [i + 1 for i in range(f.argc) if f.local_ty(i + 1).startswith('&mut')]
+            if not mutp:
+                continue
+            cargs = tuple(self.arg(s_, k) for k in range(len(s_.data['args'])))
+            for m in f.mutations():
+                if m.kind == 'call' and m.callee == callee and m.root in mutp:
+                    n = len(f.blocks[m.bb]['stmts'])
+                    e = simplify(f.dag().operand(m.args[1], m.bb, n))
+
+                    def sub(x, cargs=cargs):
+                        if x[0] == 'param' and 1 <= x[1] <= len(cargs):
+                            return cargs[x[1] - 1]
+                        return None
+                    out.append((s_, simplify(IN.subst(e, sub))))
+        return out
+
+    def returned_locals(self, body):
+        """locals whose value is moved/copied into the return place (through whole-local copies), found by role not by name"""
+        out = set()
+        work = [0]
+        seen = set()
+        while work:
+            l = work.pop()
+            if l in seen:
+                continue
+            seen.add(l)
+            for (bb, pos, kind, pay) in body.defs().get(l, []):
+                if kind == 'assign' and not pay['pl']['p'] and pay['rv']['k'] == 'use' and pay['rv']['a']['k'] in ('copy', 'move') and not pay['rv']['a']['pl']['p']:
+                    src = pay['rv']['a']['pl']['l']
+                    out.add(src)
+                    work.append(src)
+        return out
+
     def closure_body(self, defpath):
         for b in self.facts.bodies.values():
             if b.path == defpath:
